@@ -41,7 +41,7 @@ func init() {
 			n = f.n
 		}
 		allocK1(rep, m, r, nS, nS*2, nS*4)
-		pagesK1(rep, m, r, nS/2)
+		pagesK1(rep, m, r, nS/2, false)
 		// recovery model vs. the open path on the images of random histories
 		for i := 0; i < n/4+5; i++ {
 			hr := rand.New(rand.NewSource(r.Int63()))
